@@ -1628,6 +1628,42 @@ def run(chk):
         for line, arr, ka, idx, ki in viol:
             chk.violation(r_fi, "%s@%s[%s]" % (f["q"], arr[:30], idx[:30]), "%s: `%s` holds one entry per %s cell but is read at `%s`, a%s index: with inactive cells in the grid this is the entry of another cell (or beyond the end of the array)" % (f["q"], arr, ka, idx, "n active" if ki == "active" else " global"), f["file"], line)
 
+    # ---- C05.convonce: an in-place unit conversion is applied once per array
+    r_co1 = chk.rule("C05.convonce", "restart reader / writer: an in-place conversion (UnitSystem::to_si / from_si with a vector argument, convertToSI / convertFromSI) that a loop applies to every element of a container is not nested inside another loop that adds to the same object - otherwise every array added earlier is converted again for each later one (a factor is not idempotent), and which arrays come back wrong depends on how many are requested and in what order", floor=2)
+    from verif import cow as _cow5
+    for f in fx.fns:
+        if not f.get("body") or not re.search(r"/opm/output/eclipse/(LoadRestart|RestartIO|RestartValue)\.cpp$|/opm/output/data/Solution\.cpp$", f["file"]):
+            continue
+        par5 = None
+        for n in walk(f["body"]):
+            if n.get("k") != "MCall" or n.get("m") not in ("to_si", "from_si", "convertToSI", "convertFromSI"):
+                continue
+            pt_ = n.get("pt") or []
+            inplace = (n["m"] in ("convertToSI", "convertFromSI")) or (len(pt_) == 2 and pt_[1].strip().endswith("&") and not pt_[1].strip().startswith("const"))
+            if not inplace:
+                continue
+            if par5 is None:
+                par5 = _cow5.parent_map(f)
+            loops_ = []
+            cur = n
+            while id(cur) in par5:
+                cur = par5[id(cur)]
+                if cur.get("k") in ("ForRange", "For", "While"):
+                    loops_.append(cur)
+            key = "%s@%d" % (f["q"], n["l"])
+            chk.instance(r_co1, key, sample=dict(function=f["q"], call=show(n)[:100], enclosing_loops=len(loops_)))
+            if len(loops_) < 2 or loops_[0].get("k") != "ForRange":
+                continue
+            inner, outer = loops_[0], loops_[1]
+            rng = show(strip(inner["range"]))
+            root = re.match(r"[A-Za-z_]\w*(?:\.this)?", rng.replace("this.", "this_"))
+            rootn = rng.split(".")[0] if "." in rng else rng
+            inner_ids = {id(x) for x in walk(inner)}
+            adds = [x for x in walk(outer["body"]) if id(x) not in inner_ids and x.get("k") == "MCall" and not x.get("const") and x.get("obj") is not None
+                    and (show(strip(x["obj"])) == rootn or show(strip(x["obj"])) == rng) and x.get("m") not in ("to_si", "from_si")]
+            if adds:
+                chk.violation(r_co1, key, "%s: `%s` converts in place every element of `%s` inside a loop that also does `%s`: each element added earlier is converted again on every later iteration" % (f["q"], show(n)[:80], rng, show(adds[0])[:80]), f["file"], n["l"])
+
     # the unit conversions the restart writer applies and the loader inverts: mutual inverses (rules of C02, same facts)
     import rules.C02 as c02
     c02.run(core.Only(chk, {"C02.affine", "C02.inv", "C02.io", "C02.wire", "C02.offset", "C02.len"}))
